@@ -105,11 +105,19 @@ fn run(ctx: &Ctx) {
     let strat = (input_strategy(12, true), proptest::option::weighted(0.4, feed_strategy()))
         .prop_map(|(input, feed)| Case { input, feed });
     ctx.run_cases("robustness", n, strat, check);
+    // long documents (several 16 KiB chunks, so that the buffer is realigned with the default
+    // configuration and with sources that fill whatever slice they are offered)
+    let n = ctx.share(ctx.tier.pick(800, 8_000));
+    let strat = crate::props::c01::large_case_strategy().prop_map(|c| Case {
+        input: c.input,
+        feed: Some(c.feed),
+    });
+    ctx.run_cases("robustness-large", n, strat, check);
 }
 
 fn replay(oracle: &str, v: &Value) -> Option<CheckResult> {
     match oracle {
-        "robustness" => Some(match replay_from_file::<Case>(v) {
+        "robustness" | "robustness-large" => Some(match replay_from_file::<Case>(v) {
             Ok(c) => check(&c, &mut Obs::default()),
             Err(e) => Err(Failure::new("C05:decode", e)),
         }),
